@@ -30,20 +30,28 @@ def cases(tier, seed):
     out = []
     rng = rng_for(seed, "c12")
     n = 160 if tier == "quick" else 4000
-    vkinds = ["inside", "inside", "bound_lo", "bound_hi", "outside", "neg_radius", "constraint", "inside"]
-    noise = ["model", "model_prior", "data", "none_uniform", "none_gaussian", "channel_data", "both", "both_prior"]
+    vkinds = ["inside", "inside", "bound_lo", "bound_hi", "outside", "neg_radius", "constraint", "inside", "nan"]
+    noise = ["model", "model_prior", "data", "none_uniform", "none_gaussian", "channel_data", "both", "both_prior", "channel_model"]
     for i in range(n):
         c = {"id": "post-%d" % i, "kind": "post", "model": ["alpha", "exact", "alpha_fixed"][i % 3], "optics_src": ["model", "data", "mixed"][(i // 3) % 3],
-             "noise_src": noise[(i // 2) % len(noise)], "vkind": vkinds[(i // 5) % len(vkinds)], "data_form": ["image", "subset", "pixels"][(i // 7) % 3],
+             "noise_src": noise[(i // 2) % len(noise)], "vkind": vkinds[(i // 5) % len(vkinds)], "data_form": ["image", "subset", "pixels", "subset_pixels"][(i // 7) % 4],
              "two": bool(i % 4 == 3), "shape": [int(rng.integers(4, 9)), int(rng.integers(4, 9))], "seed": [seed, "post", i]}
         if c["vkind"] == "constraint":
             c["two"] = True
         # a fixed far-away sphere listed BETWEEN the two fitted ones: the constrained pair is then not adjacent in the list
         c["mid"] = bool(c["two"] and ((i // 8) % 2 or (c["vkind"] == "constraint" and i % 2)))
-        if c["noise_src"] == "channel_data":
+        c["big"] = bool(c["mid"] and i % 3 != 2)
+        if c["noise_src"] in ("channel_data", "channel_model"):
             c["optics_src"] = "data"; c["data_form"] = "image"
         out.append(c)
     return out
+
+
+def _mid(case, val_of, nmed=None):
+    """(index, radius, centre) of the far-away middle sphere: fixed numbers, or the substituted parameter values"""
+    if case.get("big"):
+        return (val_of("nm"), val_of("rm"), (val_of("xm"), val_of("ym"), val_of("zm")))
+    return (1.55 * (nmed or 1.33) / 1.33, 0.3, (8.0, 0.7, 6.0))
 
 
 # ------------------------------------------------------------------ child
@@ -77,7 +85,7 @@ def run_case(case):
     from vf.monitors import digest
     rng = rng_for(*case["seed"])
     nmed, wl, pol = float(rng.uniform(1.2, 1.4)), float(rng.uniform(0.5, 0.7)), (1.0, 0.0)
-    chan = case["noise_src"] == "channel_data"
+    chan = case["noise_src"] in ("channel_data", "channel_model")
     labs = ["red", "green"]
     # ---- priors and truth
     use_gauss = case["noise_src"] == "none_gaussian" or case["vkind"] == "neg_radius" or rng.random() < 0.3
@@ -94,7 +102,12 @@ def run_case(case):
         pri["r2"] = Uniform(0.2 + j(), 0.6 + j())
         pri["x2"] = Uniform(1.0 + j(), 3.0 + j())
         members = [s1, Sphere(n=1.6 * nmed / 1.33, r=pri["r2"], center=[pri["x2"], 0.7, 6.0])]
-        if case.get("mid"):
+        if case.get("mid") and case.get("big"):
+            # every site of the far sphere is a parameter too: the model then has more than ten parameters
+            pri["nm"] = Uniform(1.5 * nmed / 1.33 + j(), 1.6 * nmed / 1.33 + j()); pri["rm"] = Uniform(0.25 + j(), 0.35 + j())
+            pri["xm"] = Uniform(7.8 + j(), 8.2 + j()); pri["ym"] = Uniform(0.5 + j(), 0.9 + j()); pri["zm"] = Uniform(5.8 + j(), 6.2 + j())
+            members.insert(1, Sphere(n=pri["nm"], r=pri["rm"], center=[pri["xm"], pri["ym"], pri["zm"]]))
+        elif case.get("mid"):
             members.insert(1, Sphere(n=1.55 * nmed / 1.33, r=0.3, center=[8.0, 0.7, 6.0]))
         scat = Spheres(members, warn=False)
     else:
@@ -114,6 +127,8 @@ def run_case(case):
         sig_model = float(rng.uniform(0.02, 0.3)); kw["noise_sd"] = sig_model
     elif case["noise_src"] == "both_prior":
         pri["sigma"] = Uniform(0.01 + j(), 0.5 + j()); kw["noise_sd"] = pri["sigma"]
+    elif case["noise_src"] == "channel_model":
+        kw["noise_sd"] = {"green": 0.12, "red": 0.05}       # per-channel noise given to the MODEL (keys in another order than the data's channels)
     constraints = [LimitOverlaps(0.1)] if case["two"] else []
     counter = _Counter()
     if case["model"] == "alpha":
@@ -141,6 +156,8 @@ def run_case(case):
         nm = uni[int(rng.integers(0, len(uni)))]
         p = model.parameters[nm]
         vals[nm] = float(np.nextafter(p.upper_bound, np.inf)) if rng.random() < 0.5 else p.lower_bound - float(rng.uniform(1e-9, 1.0))
+    elif vk == "nan":
+        nm = uni[int(rng.integers(0, len(uni)))]; vals[nm] = float("nan")      # not a number: outside every support
     elif vk == "neg_radius":
         rn = [nm for nm in names if nm.endswith("r") and isinstance(model.parameters[nm], Gaussian)][0]
         vals[rn] = -abs(vals[rn]) - 0.01
@@ -149,12 +166,17 @@ def run_case(case):
         x2name = [nm for nm, q in zip(names, plist) if type(q) is type(pri["x2"]) and q.renamed(None) == pri["x2"].renamed(None)][0]
         # both x values stay INSIDE their priors' supports, so that only the constraint can exclude the point
         vals[x2name] = pri["x2"].lower_bound + 0.05
+        keep = {x2name}
+        if "xm" in pri:
+            keep |= {nm for nm, q in zip(names, plist) if type(q) is type(pri["xm"]) and q.renamed(None) == pri["xm"].renamed(None)}
+            for key_, v_ in (("ym", None), ("zm", None)):
+                keep |= {nm for nm, q in zip(names, plist) if type(q) is type(pri[key_]) and q.renamed(None) == pri[key_].renamed(None)}
         for nm in names:
-            if nm.endswith("center.0") and nm != x2name:
+            if nm.endswith("center.0") and nm not in keep:
                 vals[nm] = pri["x"].upper_bound - 0.02
-            if nm.endswith("center.1"):
+            if nm.endswith("center.1") and nm not in keep:
                 vals[nm] = 0.7
-            if nm.endswith("center.2"):
+            if nm.endswith("center.2") and nm not in keep:
                 vals[nm] = 6.0
     vec = [vals[nm] for nm in names]
     # ---- independent reconstruction of the physical scatterer / optics from the values (by parameter *name*)
@@ -177,7 +199,7 @@ def run_case(case):
     if chan:
         det = detector_grid((nx, ny), 0.25, extra_dims={"illumination": labs})
         wl_c = {"red": wl, "green": wl * 0.8}; pol_c = {"red": (1.0, 0.0), "green": (0.0, 1.0)}; sig_c = {"red": 0.05, "green": 0.12}
-        det = update_metadata(det, nmed, wl_c, pol_c, sig_c)
+        det = update_metadata(det, nmed, wl_c, pol_c, sig_c if case["noise_src"] == "channel_data" else None)
         truth = Sphere(n=1.59, r=0.5, center=(0.7, 0.7, 6.5))
         data = calc_holo(det, truth, scaling=0.9)
     else:
@@ -202,7 +224,7 @@ def run_case(case):
                     data.attrs[k] = None
             if "noise_sd" not in attrs:
                 data.attrs["noise_sd"] = None
-    if case["data_form"] == "subset":
+    if case["data_form"] in ("subset", "subset_pixels"):
         data = make_subset_data(data, pixels=max(2, data.size // 3), seed=int(rng.integers(0, 10 ** 6)))
     d_data = digest(data)
     d_model = digest(model)
@@ -217,7 +239,7 @@ def run_case(case):
         lp_exp = -np.inf
     if case["two"] and not invalid:
         # overlap constraint recomputed here from centres and radii (every pair, not only list neighbours)
-        mem = [(e1.r, e1.center), (e2.r, e2.center)] + ([(0.3, (8.0, 0.7, 6.0))] if case.get("mid") else [])
+        mem = [(e1.r, e1.center), (e2.r, e2.center)] + ([_mid(case, val_of)[1:]] if case.get("mid") else [])
         worst = max(mem[a][0] + mem[b][0] - float(np.linalg.norm(np.asarray(mem[a][1], float) - np.asarray(mem[b][1], float)))
                     for a in range(len(mem)) for b in range(a + 1, len(mem)))
         if max(worst, 0.0) > 0.1 * 2 * min(m[0] for m in mem):
@@ -238,7 +260,7 @@ def run_case(case):
         sig = val_of("sigma")
     elif case["noise_src"] == "data":
         sig = sig_data
-    elif case["noise_src"] == "channel_data":
+    elif case["noise_src"] in ("channel_data", "channel_model"):
         sig = None
     elif case["noise_src"] in ("none_uniform",):
         sig = 1.0 if all(isinstance(p, Uniform) for p in plist) else None
@@ -250,7 +272,7 @@ def run_case(case):
             sig = 1.0
     calls0 = monitors.COUNTERS.get("calc_holo", 0)
     c0 = counter.n
-    pixels = max(2, data.size // 2) if case["data_form"] == "pixels" else None
+    pixels = max(2, data.size // 2) if case["data_form"] in ("pixels", "subset_pixels") else None
     npseed = int(rng.integers(0, 10 ** 6))
     out = {"vkind": vk}
     try:
@@ -279,11 +301,15 @@ def run_case(case):
             if case["two"]:
                 mm = [e1, e2]
                 if case.get("mid"):
-                    mm.insert(1, Sphere(n=1.55 * nmed / 1.33, r=0.3, center=(8.0, 0.7, 6.0)))
+                    nm_, rm_, cm_ = _mid(case, val_of, nmed)
+                    mm.insert(1, Sphere(n=nm_, r=rm_, center=cm_))
                 es = Spheres(mm, warn=False)
             if chan:
                 holo = calc_holo(d_eval, es, theory=Mie(), scaling=alpha_v)
                 sigma = d_eval.attrs["noise_sd"]
+                if case["noise_src"] == "channel_model":
+                    import xarray as xr
+                    sigma = xr.DataArray([{"red": 0.05, "green": 0.12}[l] for l in labs], dims="illumination", coords={"illumination": labs})
                 r = ((holo - d_eval) / sigma).values
                 N = d_eval.size
                 ll_exp = -N / 2 * math.log(2 * math.pi) - N * float(np.mean(np.log(np.asarray(sigma.values)))) - 0.5 * float((r ** 2).sum())
@@ -326,7 +352,7 @@ TOL = {"pixels_all_equals_full": 1e-11, "lnprior": 1e-12, "lnlike": 1e-10, "lnpo
 
 def judge(case, obs):
     out = []
-    desc = {k: case.get(k) for k in ("model", "optics_src", "noise_src", "vkind", "data_form", "two", "mid")}
+    desc = {k: case.get(k) for k in ("model", "optics_src", "noise_src", "vkind", "data_form", "two", "mid", "big")}
     for k, v in obs["resid"].items():
         if not v <= TOL[k]:
             out.append({"mech": "post.%s" % k, "detail": "%s=%.3e > %.0e; %s" % (k, v, TOL[k], desc)})
